@@ -15,7 +15,7 @@ func registerC12() {
 		Level: "exploration",
 		Rule: "PRNG sequences mixing explicit timestamps (field 253), compressed-timestamp records (all 32 offsets, rollovers, runs of up to 200) and local timestamps over " +
 			"record / monitoring / activity / lap / device_info messages, messages without a timestamp field and unknown messages, both byte orders, local types 0-3; every time " +
-			"field of every decoded message is compared with a 30-line reference state machine (ref/interp.go); one file type in six is a course file with course_point messages (field 1 is called timestamp, there is no field 253); family zone-grid: every local-minus-UTC difference on the quarter-hour grid from -30 h to +30 h, each also 1, 7 and 59 s to either side, and far-out values; family chains: 2-3 such sequences concatenated and decoded by DecodeChained: the time reference starts afresh in every file (a compressed record or local timestamp before a file's first explicit timestamp has no reference); non-trivial: at least one compressed record with a reference, " +
+			"field of every decoded message is compared with a 30-line reference state machine (ref/interp.go); one file type in six is a course file with course_point messages (field 1 is called timestamp, there is no field 253); family order-pairs: every time field defined with every base type and size 1..8, the same integer once little endian and once big endian, followed by a compressed-header record: rejected in both orders or the same times in both; family zone-grid: every local-minus-UTC difference on the quarter-hour grid from -30 h to +30 h, each also 1, 7 and 59 s to either side, and far-out values; family chains: 2-3 such sequences concatenated and decoded by DecodeChained: the time reference starts afresh in every file (a compressed record or local timestamp before a file's first explicit timestamp has no reference); non-trivial: at least one compressed record with a reference, " +
 			"or a local timestamp, was compared; distinct by stream digest",
 		Assume: []string{
 			"not generated because the statement leaves them open: an explicit timestamp of value 0 followed by compressed records; field 253 in a message or definition the profile does not know",
@@ -25,6 +25,7 @@ func registerC12() {
 		Families: []lib.Family{
 			{Name: "sequences", N: func(t string) uint64 { return tierN(t, 100000, 2000000) }, Run: c12Case},
 			{Name: "chains", N: func(t string) uint64 { return tierN(t, 6000, 200000) }, Run: c12Chain},
+			{Name: "order-pairs", N: func(t string) uint64 { return uint64(len(orderPairFields(true))) }, Run: func(c *lib.Ctx, idx uint64) { orderPairs(c, orderPairFields(true)[idx]) }},
 			{Name: "zone-grid", N: func(t string) uint64 { return uint64(len(zoneGridOffsets())) * 2 }, Run: c12ZoneGrid},
 		},
 	})
